@@ -510,6 +510,13 @@ retry_peek:
 		struct qb_ipc_request_header *hdr = NULL;
 		hdr = (struct qb_ipc_request_header *)msg;
 		to_recv = hdr->size;
+		/*
+		 * the size in the header is what the peer claims, the
+		 * buffer is what we have
+		 */
+		if (to_recv < 0 || to_recv > len) {
+			to_recv = len;
+		}
 	}
 
 	result = recv(one_way->u.us.sock, data, to_recv,
